@@ -8,6 +8,14 @@ VERIF = os.path.dirname(os.path.dirname(os.path.abspath(__file__)))
 
 # property -> (technique, clause decided, trusted base / what is not decided, DESIGN ref)
 CLAIMS = {
+    "C04": ("interprocedural taint rule over ostream insertions (sanitiser discipline) + CFG must-pass-through pairing "
+            "of id references with record calls",
+            "no string read from the IR reaches the XML stream without the sanitiser of its context (attribute / "
+            "comment), the sanitiser covers < > & ' \", and every type-id written as a reference is followed on every "
+            "path by record_type_as_referenced (definitions by record_*_as_emitted)",
+            "that elf-symbol-id references name symbols present in the symbol tables (runtime set relation); control "
+            "characters are a recorded finding",
+            "§3 R-ESC, R-IDREF; §4 C04"),
     "C08": ("exit-status abstract interpretation over the CFGs of the three tools (powerset-of-worlds domain, "
             "interprocedural summaries) + sibling-agreement of counter atoms (AST)",
             "every value that can reach the exit status of abidiff/abicompat/abipkgdiff uses only documented bits with "
